@@ -80,6 +80,11 @@ def generate(reg, only=None):
         except KeyError as e:
             rec.update(status="target-missing", reason=str(e))
             problems.append((c.label(), "target missing: " + str(e)))
+        except (z3.Z3Exception, TypeError, AttributeError, IndexError, ValueError, AssertionError) as e:
+            # the symbolic execution of THIS function's text failed inside the engine (typically a construct combined in a way the value model does not
+            # cover, e.g. after a change to the function): the function is outside the supported subset on this tree -- undecided, like Unsupported
+            rec.update(status="unsupported", reason="engine could not execute the function: %s: %s" % (type(e).__name__, str(e)[:200]))
+            problems.append((c.label(), "unsupported: engine could not execute the function: %s: %s" % (type(e).__name__, str(e)[:200])))
         info.append(rec)
     # lemmas over contracts
     for name, props, fn in reg.lemmas:
